@@ -55,6 +55,9 @@ func genSyncEvent(t *rapid.T, adversarial bool) SyncEvent {
 		return SyncEvent{Ev: "head"}
 	case 8:
 		if adversarial && rapid.Bool().Draw(t, "headrace") {
+			if rapid.Bool().Draw(t, "twin") {
+				return SyncEvent{Ev: "twin_race"}
+			}
 			return SyncEvent{Ev: "head_race", K: rapid.IntRange(0, 5).Draw(t, "hk"), RangeDelay: rapid.SampledFrom([]int{100, 500, 1500}).Draw(t, "hdelay")}
 		}
 		return SyncEvent{Ev: "sleep", K: rapid.SampledFrom([]int{100, 1000, 4000, 20000}).Draw(t, "ms")}
@@ -125,20 +128,26 @@ func runSync(t *testing.T, s SyncScenario, c03 bool) (res Result) {
 		}
 		var maxAcked uint64
 		learnedAt := 0 // number of getter calls made before the newest head was learned
+		_ = learnedAt
 		callsBeforeEvent := 0
+		var learnedMs, msBeforeEvent int64
+		nowMs := func() int64 { return time.Since(vh.Epoch).Milliseconds() }
 		ack := func(h uint64) {
 			obs.Acked = append(obs.Acked, h)
 			if h > maxAcked {
 				maxAcked = h
 				learnedAt = callsBeforeEvent // the sync it triggers may already have run when the call returns
+				learnedMs = msBeforeEvent
 			}
 		}
 		// caughtUp is the C07 demand at a quiescent point: unless a getter error aborted a sync after the
 		// newest head was learned (then only the next learned head resumes it), the store has reached
 		// the newest head the Syncer acknowledged - including heads learned while a sync was running.
 		caughtUp := func(tag string) bool {
-			for _, c := range e.getter.Calls()[learnedAt:] {
-				if c.Method == "GetRangeByHeight" && c.Err != "" {
+			for _, c := range e.getter.Calls() {
+				// a range request that failed at or after the moment the newest head was learned (it may
+				// have been started before) aborted a sync that the newest head cannot have re-triggered yet
+				if c.Method == "GetRangeByHeight" && c.Err != "" && c.EndAt >= learnedMs {
 					return true
 				}
 			}
@@ -192,8 +201,12 @@ func runSync(t *testing.T, s SyncScenario, c03 bool) (res Result) {
 
 		for i, ev := range s.Events {
 			tag := fmt.Sprintf("event#%d %s/%s", i, ev.Ev, ev.Kind)
+			if e.getter.Tip() > syncChainLen-400 {
+				break // keep room on the pre-built chain for the remaining events and the final phase
+			}
 			syncing := e.getter.Outstanding() > 0 || !e.syncer.State().Finished()
 			callsBeforeEvent = len(e.getter.Calls())
+			msBeforeEvent = nowMs()
 			switch ev.Ev {
 			case "grow":
 				e.grow(ev.K)
@@ -262,6 +275,60 @@ func runSync(t *testing.T, s SyncScenario, c03 bool) (res Result) {
 				}
 				if syncing {
 					learnedWhileSyncing = true
+				}
+			case "twin_race":
+				// Head() learns the head adjacent to the stored one from the trusted getter and writes it (the
+				// store write takes a moment); meanwhile an equivocating twin of that very header - same
+				// lineage, valid hash link, other content - arrives over gossip. The height is already taken by
+				// the header being written, so the twin must be refused and must not end up in the store.
+				if !e.quiesce(600) {
+					res.failf("HARNESS: no quiescence before %s", tag)
+					return
+				}
+				sh, err := e.st.Head(ctx)
+				if err != nil || sh.H+2 >= syncChainLen || sh.H < e.getter.Tip() {
+					continue
+				}
+				time.Sleep(4 * time.Second) // the subjective head goes stale
+				e.getter.SetTip(sh.H + 1)
+				twin := chain.At(sh.H + 1).Clone()
+				twin.Salt = 4242
+				twin.Seal()
+				e.slow.setDelay(50 * time.Millisecond)
+				var twg sync.WaitGroup
+				twg.Add(1)
+				var th *vh.Header
+				var terr error
+				go func() {
+					defer twg.Done()
+					th, terr = e.syncer.Head(ctx)
+				}()
+				synctest.Wait() // Head() is now inside the store write of sh.H+1
+				gctx, gcancel := context.WithTimeout(ctx, 30*time.Second)
+				verr := e.sub.deliver(gctx, twin)
+				gcancel()
+				twg.Wait()
+				e.slow.setDelay(0)
+				advSeen["twin_race"] = true
+				advWhileSyncing = true
+				advHashes = append(advHashes, fmtHash(twin.Hash()))
+				if terr == nil && th != nil {
+					if !chain.IsCanonical(th) {
+						res.failf("%s: Syncer.Head returned %v, not the header its trusted getter reported", tag, th)
+						return
+					}
+					ack(th.H)
+				}
+				if verr == nil {
+					res.failf("%s: an equivocating twin of height %d was accepted while Head() was storing the header of that height", tag, twin.H)
+					return
+				}
+				if !e.quiesce(600) {
+					res.failf("HARNESS: no quiescence at %s", tag)
+					return
+				}
+				if !checkSafety(tag) {
+					return
 				}
 			case "head_race":
 				// The subjective head is stale; the (contract-abiding) getter answers the head request slowly
@@ -428,6 +495,7 @@ func runSync(t *testing.T, s SyncScenario, c03 bool) (res Result) {
 					}
 				}
 				callsBeforeEvent = len(e.getter.Calls())
+				msBeforeEvent = nowMs()
 				if lh, err := e.syncer.Head(ctx); err == nil {
 					if !chain.IsCanonical(lh) {
 						res.failf("%s: Syncer.Head returned an unverifiable header %v", tag, lh)
@@ -459,6 +527,7 @@ func runSync(t *testing.T, s SyncScenario, c03 bool) (res Result) {
 		e.getter.set(func() { e.getter.RangeMax, e.getter.RangeErrs, e.getter.RangeDelay = 0, 0, 0 })
 		e.grow(1)
 		callsBeforeEvent = len(e.getter.Calls())
+		msBeforeEvent = nowMs()
 		tip := e.getter.Tip()
 		fctx, fcancel := context.WithTimeout(ctx, 30*time.Second)
 		verr := e.sub.deliver(fctx, chain.At(tip))
